@@ -13,6 +13,7 @@
 -/
 import SpectraVerif.Proofs.OrchLemmas
 import SpectraVerif.Gen.Status
+import SpectraVerif.Gen.Restart
 
 namespace C05
 open Orch
@@ -114,6 +115,23 @@ theorem c05_status_from_source (sel : Int) (maxit : Nat) (tol : τ) (sorting : I
     · have : ¬ ((refresh K c tol maxit (loop K c sel tol maxit 0 0 0 s2)).2 : Int) ≥ (c.nev : Int) := by omega
       simp [Info.code, this]
   · rw [hret]; simp only [Gen.Status.hermTail_ret]; omega
+
+/--
+  **The loop frame is the source's**: the arguments of the factorization call that opens `compute`, the range of the restart loop
+  and its `break` condition, as REGENERATED from both `compute()` functions (`Gen.Restart.*ComputeSkel_*`), are the ones the
+  orchestration model uses: it starts from `max 1 subspace_dim()`, factorizes up to `ncv`, counts `i` from 0 while `i < maxit`,
+  and leaves the loop exactly when `nconv >= nev`.
+-/
+theorem c05_loop_from_source (k nev ncv maxit nconv : Nat) :
+    Gen.Restart.hermComputeSkel_frame (ncv : Int) (maxit : Int) (k : Int) = (((max 1 k : Nat) : Int), (ncv : Int), 0, (maxit : Int)) ∧
+    Gen.Restart.genComputeSkel_frame (ncv : Int) (maxit : Int) (k : Int) = (((max 1 k : Nat) : Int), (ncv : Int), 0, (maxit : Int)) ∧
+    (Gen.Restart.hermComputeSkel_break (nev : Int) (nconv : Int) = true ↔ nconv ≥ nev) ∧
+    (Gen.Restart.genComputeSkel_break (nev : Int) (nconv : Int) = true ↔ nconv ≥ nev) := by
+  refine ⟨?_, ?_, ?_, ?_⟩
+  · simp only [Gen.Restart.hermComputeSkel_frame]; congr 1; omega
+  · simp only [Gen.Restart.genComputeSkel_frame]; congr 1; omega
+  · simp only [Gen.Restart.hermComputeSkel_break, decide_eq_true_eq]; omega
+  · simp only [Gen.Restart.genComputeSkel_break, decide_eq_true_eq]; omega
 
 /-- both base classes have the same status logic (the general family's regenerated tail equals the symmetric one's) -/
 theorem c05_status_same_both_families (i maxit niter nev nconv : Int) :
